@@ -108,11 +108,14 @@ pub mod sample {
         for i in 0..coeff_count {
             let sampled = cbd(rng);
             for j in 0..coeff_modulus_size {
+                // Reduce modulo each prime: for a modulus not larger than the error bound the
+                // plain "q - |e|" wraps around below zero (and "e" itself may exceed q).
+                let magnitude = coeff_modulus[j].reduce(sampled.unsigned_abs() as u64);
                 destination[i + j * coeff_count] = 
-                    if sampled >= 0 {
-                        sampled as u64
+                    if sampled >= 0 || magnitude == 0 {
+                        magnitude
                     } else {
-                        coeff_modulus[j].value() - sampled.unsigned_abs() as u64
+                        coeff_modulus[j].value() - magnitude
                     };
             }
         }
